@@ -1,15 +1,18 @@
 /-
-C07 — clauses the unchanged tree violates, with kernel-checked counter-examples.
+C07 — kernel-checked concrete facts next to the theorems.
 
-1. *Listings honour hide rules.*  Full statement: no listing shows an entry whose path matches
-   a hide rule.  `directoryListing` calls `fileHidden(entry.Name(), …)` with the bare entry
-   name, which `FastAbs` resolves against the *working directory*, not the listed directory —
-   so a hide rule that is a path (`/srv/secret.txt`, `./site/.git`, `/srv/*/x`) never hides a
-   listing entry, although the same rule does make the file itself 404.
-2. *Globs cannot come from the request.*  Full statement: the `try_files` pattern
-   `{http.request.uri.path}` can only match the file the request names.  `globSafeRepl`
-   escapes `*`, `[`, `?` but not `\`, so the request `/\*` becomes the pattern `/\\*`
-   (escaped backslash, live star).
+1. *The old listing filter.*  Before /repo cfacd08 `directoryListing` called
+   `fileHidden(entry.Name(), …)` with the bare entry name only (`listingNamesOld`), which
+   `FastAbs` resolves against the working directory — a hide rule that is a path never hid a
+   listing entry.  `listing_omits_hidden_full_fails` shows the clause is not vacuous: the old
+   filter violates it, the current one (`listingNames`) does not, on the same input.
+2. *The residual hypothesis of `Props.listing_omits_hidden` is needed.*  The fixed filter builds
+   the entry's path from the request URL; when the listed directory was reached through an index
+   name that is itself a directory, URL and directory differ and a path rule is still missed
+   (`listing_hypothesis_needed`, replayed on the implementation on every run).
+3. *Glob syntax from the request* (a model fact, not a C07 violation: the match stays below the
+   root).  `globSafeRepl` escapes `*`, `[`, `?` but not `\`, so the request `/\*` becomes the
+   pattern `/\\*` (escaped backslash, live star).
 -/
 import CaddyModel.C07.Spec
 
@@ -28,12 +31,34 @@ def wCfg : Cfg := ⟨str "/w", str "/srv", [str "/srv/secret.txt"], [], true, fa
 /-- the file itself is refused … -/
 theorem witness_file_is_hidden : (serve wFS wCfg (str "/secret.txt") (str "/secret.txt")).1 = .notFound := by decide
 
-/-- … but the listing of `/srv` shows it -/
+/-- the OLD filter shows `secret.txt` in the listing of `/srv` although its path is hidden -/
 theorem listing_omits_hidden_full_fails :
+    ∃ (c : Cfg) (dir : Bytes) (es : List Entry) (e : Entry),
+      e ∈ es ∧ showEntry e ∈ listingNamesOld c es ∧ entryHiddenByPath c dir e = true :=
+  ⟨wCfg, str "/srv", [⟨str "a.txt", false⟩, ⟨str "secret.txt", false⟩], ⟨str "secret.txt", false⟩, by decide⟩
+
+/-- the current filter omits it -/
+theorem witness_listing_now_filtered :
+    (serve wFS wCfg (str "/") (str "/")).1 = .listing (str "/srv") [str "a.txt"] := by decide
+
+/-- `/srv/sub` with `a.txt` and `secret.txt` -/
+def wFS2 : FS := fun n =>
+  if n = str "/srv" then .dir [⟨str "sub", true⟩]
+  else if n = str "/srv/sub" then .dir [⟨str "a.txt", false⟩, ⟨str "secret.txt", false⟩]
+  else if n = str "/srv/sub/a.txt" then .file 1
+  else if n = str "/srv/sub/secret.txt" then .file 2
+  else .missing
+
+/-- root `/srv`, index name `sub`, hide `/srv/sub/secret.txt`, browse on -/
+def wCfg2 : Cfg := ⟨str "/w", str "/srv", [str "/srv/sub/secret.txt"], [str "sub"], true, false, true⟩
+
+/-- without `dir = requestFile c path` the listing clause fails: `GET /` lists `/srv/sub` (the
+    index name is a directory) and shows `secret.txt`, whose path is hidden -/
+theorem listing_hypothesis_needed :
     ∃ (fs : FS) (c : Cfg) (path orig dir : Bytes) (names : List Bytes) (es : List Entry) (e : Entry),
-      (serve fs c path orig).1 = .listing dir names ∧ fs dir = .dir es ∧ e ∈ es ∧
-      e.name ∈ names ∧ entryHiddenByPath c dir e = true :=
-  ⟨wFS, wCfg, str "/", str "/", str "/srv", [str "a.txt", str "secret.txt"],
+      fs [] = .missing ∧ (serve fs c path orig).1 = .listing dir names ∧ fs dir = .dir es ∧ e ∈ es ∧
+      Normal e.name ∧ showEntry e ∈ names ∧ entryHiddenByPath c dir e = true ∧ dir ≠ requestFile c path :=
+  ⟨wFS2, wCfg2, str "/", str "/", str "/srv/sub", [str "a.txt", str "secret.txt"],
     [⟨str "a.txt", false⟩, ⟨str "secret.txt", false⟩], ⟨str "secret.txt", false⟩, by decide⟩
 
 /-- request `/\*`: the escaped pattern still matches a different name -/
